@@ -2,7 +2,6 @@ package rules
 
 import (
 	"fmt"
-	"go/ast"
 	"go/constant"
 	"go/token"
 	"go/types"
@@ -365,44 +364,73 @@ type switchInfo struct {
 	hasDeflt bool
 }
 
-func switchOnParam(pk *core.Prog, decl *ast.FuncDecl, info *types.Info) *switchInfo {
-	var si *switchInfo
-	ast.Inspect(decl, func(n ast.Node) bool {
-		sw, ok := n.(*ast.SwitchStmt)
-		if !ok || sw.Tag == nil || si != nil {
-			return true
+// widthTable reads the per-width dispatch of a packer / unpacker from SSA: every branch `width == k` on an int
+// parameter (a switch is lowered to that chain; an if-chain is the same thing) maps k to the ByteOrder
+// accessors invoked and the byte indexing done on the matching side. hasDeflt: a width that matches no case
+// raises before the function returns.
+func widthTable(p *core.Prog, fn *ssa.Function) *switchInfo {
+	si := &switchInfo{cases: map[int64][]string{}}
+	match := map[edgeKey]bool{}
+	var width *ssa.Parameter
+	type arm struct {
+		k    int64
+		from *ssa.BasicBlock
+		to   *ssa.BasicBlock
+	}
+	var arms []arm
+	for _, ifi := range core.Ifs(fn) {
+		cd := core.CondOf(ifi)
+		if cd.Op != token.EQL {
+			continue
 		}
-		si = &switchInfo{cases: map[int64][]string{}}
-		for _, cl := range sw.Body.List {
-			cc := cl.(*ast.CaseClause)
-			var sels []string
-			for _, st := range cc.Body {
-				ast.Inspect(st, func(m ast.Node) bool {
-					if call, ok := m.(*ast.CallExpr); ok {
-						if se, ok := call.Fun.(*ast.SelectorExpr); ok {
-							sels = append(sels, se.Sel.Name)
-						}
-					}
-					if _, ok := m.(*ast.IndexExpr); ok {
-						sels = append(sels, "index")
-					}
-					return true
-				})
+		x, y := cd.X, cd.Y
+		if _, isC := core.ConstInt(x); isC {
+			x, y = y, x
+		}
+		prm, ok := core.Unwrap(core.ForwardLoad(x)).(*ssa.Parameter)
+		k, isC := core.ConstInt(y)
+		if !ok || !isC || !isIntT(prm.Type()) {
+			continue
+		}
+		if width != nil && width != prm {
+			continue
+		}
+		width = prm
+		arms = append(arms, arm{k, ifi.Block(), cd.True})
+		match[edgeKey{ifi.Block(), cd.True}] = true
+	}
+	if len(arms) < 2 {
+		return nil
+	}
+	for _, a := range arms {
+		var sels []string
+		core.AllInstrs(fn, func(in ssa.Instruction) {
+			if !core.EdgeDominates(a.from, a.to, in.Block()) {
+				return
 			}
-			if cc.List == nil {
-				si.hasDeflt = len(sels) > 0
-				continue
+			if cc := core.CallCommon(in); cc != nil && cc.IsInvoke() {
+				sels = append(sels, cc.Method.Name())
 			}
-			for _, e := range cc.List {
-				if tv, ok := info.Types[e]; ok && tv.Value != nil {
-					if k, ok := constant.Int64Val(tv.Value); ok {
-						si.cases[k] = sels
-					}
+			if ia, ok := in.(*ssa.IndexAddr); ok {
+				if _, isSlice := ia.X.Type().Underlying().(*types.Slice); isSlice {
+					sels = append(sels, "index")
 				}
 			}
+		})
+		si.cases[a.k] = append(si.cases[a.k], sels...)
+	}
+	// no case matches: raises before returning
+	pan := &core.Query{P: p, Pred: func(x ssa.Instruction) bool { _, ok := x.(*ssa.Panic); return ok }}
+	t, _ := core.Search(nil, fn.Blocks[0], func(x ssa.Instruction) core.Action {
+		if pan.InstrMay(x, nil) {
+			return core.Barrier
 		}
-		return false
-	})
+		if core.IsNormalReturn(x) {
+			return core.Target
+		}
+		return core.Continue
+	}, func(a, b *ssa.BasicBlock) bool { return !match[edgeKey{a, b}] })
+	si.hasDeflt = t == nil
 	return si
 }
 
@@ -452,10 +480,8 @@ func runC04R2(c *core.Ctx, codecs []*frameCodec) {
 	pf, uf := packers[0], unpackers[0]
 	c.FuncsSeen[p.QName(pf)] = true
 	c.FuncsSeen[p.QName(uf)] = true
-	pdecl := p.FuncDecl[pf.Object().(*types.Func)]
-	udecl := p.FuncDecl[uf.Object().(*types.Func)]
-	psw := switchOnParam(p, pdecl, pk.TypesInfo)
-	usw := switchOnParam(p, udecl, pk.TypesInfo)
+	psw := widthTable(p, pf)
+	usw := widthTable(p, uf)
 	if psw == nil || usw == nil {
 		c.Unk("R2", "pack-unpack/switch", p.Pos(pf.Pos()), "width switch not found in packer/unpacker")
 		return
@@ -533,29 +559,25 @@ func runC04R2(c *core.Ctx, codecs []*frameCodec) {
 		if p.PkgRel(fn) != "codec/frame" || fn.Parent() != nil || fn.Object() == nil || !fn.Object().Exported() {
 			continue
 		}
-		decl := p.FuncDecl[fn.Object().(*types.Func)]
-		if decl == nil {
-			continue
-		}
+		// the widths the constructor admits: the constants an int parameter is compared against with != in the
+		// membership assertion (`w != 1 && w != 2 && ...`), read from SSA so that the assertion may be spelled as
+		// AssertIf(...), as if/panic, or live in a helper that the normal form inlines
 		admitted := map[int64]bool{}
-		ast.Inspect(decl, func(n ast.Node) bool {
-			be, ok := n.(*ast.BinaryExpr)
-			if !ok || be.Op != token.NEQ {
-				return true
+		core.AllInstrs(fn, func(in ssa.Instruction) {
+			b, ok := in.(*ssa.BinOp)
+			if !ok || b.Op != token.NEQ {
+				return
 			}
-			id, ok := be.X.(*ast.Ident)
-			if !ok {
-				return true
+			x, y := b.X, b.Y
+			if _, isC := core.ConstInt(x); isC {
+				x, y = y, x
 			}
-			if obj, isVar := pk.TypesInfo.Uses[id].(*types.Var); !isVar || !isIntT(obj.Type()) {
-				return true
+			if core.ParamOf(fn, x) < 0 || !isIntT(x.Type()) {
+				return
 			}
-			if tv, ok := pk.TypesInfo.Types[be.Y]; ok && tv.Value != nil {
-				if k, ok := constant.Int64Val(tv.Value); ok {
-					admitted[k] = true
-				}
+			if k, isC := core.ConstInt(y); isC {
+				admitted[k] = true
 			}
-			return true
 		})
 		if len(admitted) == 0 {
 			continue
